@@ -176,6 +176,59 @@ pub fn apply_op(op: &Op, top: bool) {
             wd.roots.borrow_mut().push(LoggedRc::new(h, id));
             count(ctr::OBJECTS, 1);
         }
+        Op::NewUninitAdopted { target, loopback } => {
+            if mode == Mode::NoAdopt {
+                return noop();
+            }
+            let id = wd.model.borrow().n();
+            if id >= MAX_OBJECTS {
+                return noop();
+            }
+            let hs = wd.model.borrow().handles();
+            let Some(it) = pick(*target, hs.len()) else { return noop() };
+            let (loc_t, t) = hs[it];
+            let id = id as Oid;
+            let ht = handle_at(loc_t);
+            let node = Node::new(id, vec![]);
+            // the value already owns a handle to the target
+            let c = checked_clone(unsafe { &(*ht).h }, t);
+            let lr = LoggedRc::new(c, t);
+            lr.owner.set(id);
+            node.slots.borrow_mut().push(lr);
+            let prev = arena::set_ctx(CtxKind::New, id, 0);
+            let mut u: Rc<std::mem::MaybeUninit<Node>> = lib(|| Rc::<Node>::new_uninit());
+            arena::restore_ctx(prev);
+            lib(|| unsafe { Rc::get_mut(&mut u).unwrap().as_mut_ptr().write(node) });
+            // adoption recorded on the still-uninit typed handle; the target's handle
+            // is viewed through the same (transparent) type
+            {
+                let prev = arena::set_ctx(CtxKind::Adopt, id, t);
+                let other: &Rc<std::mem::MaybeUninit<Node>> = unsafe { &*(&(*ht).h as *const std::mem::ManuallyDrop<Rc<Node>> as *const Rc<std::mem::MaybeUninit<Node>>) };
+                lib(|| unsafe { Rc::adopt_unchecked(&u, other) });
+                if *loopback {
+                    lib(|| unsafe { Rc::adopt_unchecked(&u, &u) });
+                }
+                arena::restore_ctx(prev);
+            }
+            let h: Rc<Node> = lib(|| unsafe { u.assume_init() });
+            let addr = Rc::__verif_addr(&h);
+            let vaddr = Rc::as_ptr(&h) as usize;
+            {
+                let mut m = wd.model.borrow_mut();
+                let got = m.new_obj(addr, vaddr, false);
+                assert_eq!(got, id);
+                m.objs[id as usize].slots.push(t);
+                m.add_rec(id, t);
+                if *loopback {
+                    *m.l.entry(id).or_insert(0) += 1;
+                }
+                m.roots.push(id);
+            }
+            wd.addr2oid.borrow_mut().push((addr, id));
+            wd.roots.borrow_mut().push(LoggedRc::new(h, id));
+            label(lab::UNINIT_ADOPT);
+            count(ctr::OBJECTS, 1);
+        }
         Op::CloneH(sel) => {
             let hs = wd.model.borrow().handles();
             let Some(i) = pick(*sel, hs.len()) else { return noop() };
